@@ -20,7 +20,8 @@ import OSq.Proofs.FloatFmt
   Theorems
   * `readLine3_gate`       C20/C04: `name[(p1, …)] q[i], …` reads as `gate name (paramTexts fmt nm) nm.qubitArgs`.
   * `readLine3_measure`    `b[i] = name q[j]` reads as `measure i name j`.
-  * `readLine3_reset`      `name q[j]` reads as `gate name [] [j]` (one-operand gate shape with the reset's name).
+  * `readLine3_reset`      `name q[j]` reads as `gate name [] [j]` (one-operand gate shape with the reset's name);
+    `readLine3_reset_classify`  classified by name (`Line3.classify`) it is `reset name j`.
   * `readLine3_comment`    `/* text */` reads as `comment text`.
   * `readLine3_writeStmt`  (Theorem 1) all kinds: `readLine3 (stmtBody fmt s) = some (expectedLine3 fmt s)`.
   * `readLines_rstrip_blocks`  generic: a text that is a sequence of good blocks, right-stripped plus `"\n"`,
@@ -36,6 +37,14 @@ import OSq.Proofs.FloatFmt
   * `isParamTok_intText`, `isParamTok_fmtFloat`   integers and `fmtFloat P x` (all `x`, also `inf`/`nan`) are
                            parameter tokens, so `hfmt` holds for the real formatter:
     `readProgram3_writeCircuit_float`, `readProgram1_exportV1_float`.
+  * `decimalValue : String → Option ℚ`   the rational denoted by `[-]d+.d+(e[+-]d+)?`.
+  * `decimalValue_fmtDigs` the text laid out by `fmtDigs` (after `fixExponent`, behind an optional sign) denotes
+                           `± N(ds)·10^(decpt−|ds|)`, `ds` the significant digits — all five layouts.
+  * `param_value_digits`   (Theorem 4) for a finite non-zero double the written text parses to `± d·10^(e−P)`, `d` a
+                           `P`-digit integer, sign = sign bit, `|num/den − d·10^(e−P)| ≤ 10^(e−P)/2`.
+  * `param_value`          … i.e. to a rational `v` with `10^(e−1) ≤ |v| < 10^e` and `|x − v| ≤ 10^(e−P)/2`
+                           (`x = bitsValue bits` the exact value): correct to `P` (= 8) significant digits.
+    `param_value_float`    the same for the text of a `.float x` argument; `param_value_zero`: `±0` ↦ `0`.
 -/
 
 namespace OSq
@@ -449,6 +458,13 @@ theorem readLine3_reset (fmt : α → String) (q : Int) (nm : Named α) (h : (St
   simp only [List.map_cons, List.map_nil, List.intercalate_singleton] at hQ
   rw [e, readLine3L_space _ _ _ (isIdent_toList hid) hQ (by simp), String.ofList_toList, hargs]
   rfl
+
+/-- a reset line, classified by its name, is the reset of that qubit -/
+theorem readLine3_reset_classify (fmt : α → String) (q : Int) (nm : Named α) (h : (Stmt.reset q (some nm)).Writable) :
+    (readLine3 (stmtBody fmt (.reset q (some nm)))).map (Line3.classify (· == nm.name)) =
+      some (.reset nm.name (nm.args.getD 0 (.int 0)).index) := by
+  rw [readLine3_reset fmt q nm h]
+  simp [Line3.classify]
 
 /-- **C04** a comment line reads back as the comment text. -/
 theorem readLine3_comment (fmt : α → String) (t : String) (h : (Stmt.comment t : Stmt α).Writable) :
@@ -1477,6 +1493,486 @@ example (P : Nat) (anon : Gate Float → String) (θ : Float) :
     subst hs
     exact ⟨(by decide : isIdent "Rz" = true), by intro i hi; simp at hi, by simp [Named.qubitArgs]⟩)
 
+/-! ### Theorem 4: the parameter text denotes the argument to `P` significant digits -/
+
+/-- `[+-]d+` -/
+def readExp : List Char → Option Int
+  | [] => none
+  | s :: ds =>
+    if s = '+' then (readNat ds).map Int.ofNat
+    else if s = '-' then (readNat ds).map (fun (n : Nat) => -(n : Int)) else none
+
+/-- fraction digits and optional exponent part of `d+(e…)?` -/
+def splitExp (r : List Char) : List Char × Option (List Char) :=
+  match splitAt1 'e' r with
+  | some q => (q.1, some q.2)
+  | none => (r, none)
+
+def expValue : Option (List Char) → Option Int
+  | none => some 0
+  | some x => readExp x
+
+/-- the rational number denoted by `[-]d+.d+(e[+-]d+)?` -/
+def decimalValueL (l0 : List Char) : Option ℚ :=
+  let neg : Bool := l0.head? == some '-'
+  let l := if neg then l0.tail else l0
+  (splitAt1 '.' l).bind fun p =>
+    (readNat p.1).bind fun _ => (readNat (splitExp p.2).1).bind fun _ =>
+      (expValue (splitExp p.2).2).bind fun ex =>
+        some ((if neg then -1 else 1) * (Nat.ofDigitChars 10 (p.1 ++ (splitExp p.2).1) 0 : ℚ) *
+          (10 : ℚ) ^ (ex - ((splitExp p.2).1.length : Int)))
+
+def decimalValue (s : String) : Option ℚ := decimalValueL s.toList
+
+example : decimalValue "-12.50e-03" = some (-(1250 : ℚ) * 10 ^ (-5 : Int)) := by
+  simp [decimalValue, decimalValueL, splitAt1, splitExp, expValue, readExp, readNat, Nat.ofDigitChars]
+
+theorem splitAt1_none (c : Char) (l : List Char) (h : c ∉ l) : splitAt1 c l = none := by
+  induction l with
+  | nil => rfl
+  | cons x t ih =>
+    have hx : x ≠ c := fun e => h (by rw [e]; simp)
+    simp [splitAt1, hx, ih (fun e => h (by simp [e]))]
+
+theorem readNat_digits {l : List Char} (hd : Digits l) (hne : l ≠ []) :
+    readNat l = some (Nat.ofDigitChars 10 l 0) := by
+  have h1 : l.isEmpty = false := by simpa using hne
+  have h2 : l.all Char.isDigit = true := List.all_eq_true.2 hd
+  simp [readNat, h1, h2]
+
+def expSuffix : Option (List Char) → List Char
+  | none => []
+  | some x => 'e' :: x
+
+/-- evaluation of `decimalValueL` on a well-formed text -/
+theorem decimalValueL_eval (neg : Bool) (ip fp : List Char) (ex : Option (List Char)) (e : Int)
+    (hip : Digits ip) (hipne : ip ≠ []) (hfp : Digits fp) (hfpne : fp ≠ []) (hex : expValue ex = some e) :
+    decimalValueL ((if neg then ['-'] else []) ++ ip ++ '.' :: fp ++
+        expSuffix ex) =
+      some ((if neg then -1 else 1) * (Nat.ofDigitChars 10 (ip ++ fp) 0 : ℚ) * (10 : ℚ) ^ (e - (fp.length : Int))) := by
+  obtain ⟨c, t, rfl⟩ := List.exists_cons_of_ne_nil hipne
+  have hc : c ≠ '-' := fun h => absurd (hip c (by simp)) (by rw [h]; decide)
+  have hdot : '.' ∉ c :: t := hip.not_mem '.' rfl
+  have hE : 'e' ∉ fp := hfp.not_mem 'e' rfl
+  have hsp : splitExp (fp ++ expSuffix ex) = (fp, ex) := by
+    cases ex with
+    | none => simp [expSuffix, splitExp, splitAt1_none _ _ hE]
+    | some x => simp [expSuffix, splitExp, splitAt1_append _ _ _ hE]
+  have hhead : (((if neg then ['-'] else []) ++ (c :: t) ++ '.' :: fp ++
+      expSuffix ex).head? == some '-') = neg := by
+    cases neg <;> simp [hc]
+  have htail : (if neg then ((if neg then ['-'] else []) ++ (c :: t) ++ '.' :: fp ++
+      expSuffix ex).tail else ((if neg then ['-'] else []) ++ (c :: t) ++ '.' :: fp ++
+      expSuffix ex)) =
+      (c :: t) ++ '.' :: (fp ++ expSuffix ex) := by
+    cases neg <;> simp
+  unfold decimalValueL
+  simp only [hhead, htail, splitAt1_append _ _ _ hdot, Option.bind_some, hsp, readNat_digits hip (by simp),
+    readNat_digits hfp hfpne, hex]
+
+/-! #### digits of the rounded number -/
+
+theorem sigDigits_spec (d : Nat) (hd : 0 < d) : ∃ z, Nat.toDigits 10 d = sigDigits d ++ List.replicate z '0' := by
+  have hs : (stripTrailingZeros (natDigits d)).toList =
+      ((Nat.toDigits 10 d).reverse.dropWhile (· == '0')).reverse := by
+    simp only [stripTrailingZeros, natDigits, String.toList_ofList, natText_toList]
+  have hsplit : Nat.toDigits 10 d = ((Nat.toDigits 10 d).reverse.dropWhile (· == '0')).reverse ++
+      ((Nat.toDigits 10 d).reverse.takeWhile (· == '0')).reverse := by
+    rw [← List.reverse_append, List.takeWhile_append_dropWhile, List.reverse_reverse]
+  have hz : ((Nat.toDigits 10 d).reverse.takeWhile (· == '0')).reverse =
+      List.replicate ((Nat.toDigits 10 d).reverse.takeWhile (· == '0')).length '0' := by
+    have : ∀ x ∈ ((Nat.toDigits 10 d).reverse.takeWhile (· == '0')), x = '0' := by
+      intro x hx
+      have := List.all_eq_true.1 (List.all_takeWhile (p := (· == '0')) (l := (Nat.toDigits 10 d).reverse)) x hx
+      simpa using this
+    rw [List.eq_replicate_of_mem this]
+    simp
+  refine ⟨((Nat.toDigits 10 d).reverse.takeWhile (· == '0')).length, ?_⟩
+  unfold sigDigits
+  simp only [hs]
+  split
+  · next hemp =>
+    exfalso
+    rw [List.isEmpty_iff] at hemp
+    rw [hemp, List.nil_append, hz] at hsplit
+    have := Nat.ofDigitChars_ten_toDigits (n := d)
+    rw [hsplit, Nat.ofDigitChars_replicate_zero] at this
+    omega
+  · rw [← hz]; exact hsplit
+
+theorem toDigits_length (P d : Nat) (hP : 1 ≤ P) (h1 : 10 ^ (P - 1) ≤ d) (h2 : d < 10 ^ P) :
+    (Nat.toDigits 10 d).length = P := by
+  have hle := (Nat.length_toDigits_le_iff (b := 10) (n := d) (k := P) (by decide) (by omega)).2 h2
+  by_cases hP1 : P = 1
+  · have := Nat.length_toDigits_pos (b := 10) (n := d); omega
+  · have := mt (Nat.length_toDigits_le_iff (b := 10) (n := d) (k := P - 1) (by decide) (by omega)).1 (by omega)
+    omega
+
+/-- the significant digits `ds` and the number of stripped zeros: `d = N(ds)·10^z`, `|ds| + z = P` -/
+theorem sigDigits_value (P d : Nat) (hP : 1 ≤ P) (h1 : 10 ^ (P - 1) ≤ d) (h2 : d < 10 ^ P) :
+    ∃ z, Nat.ofDigitChars 10 (sigDigits d) 0 * 10 ^ z = d ∧ (sigDigits d).length + z = P := by
+  have hd : 0 < d := Nat.lt_of_lt_of_le (Nat.pow_pos (by decide)) h1
+  obtain ⟨z, hz⟩ := sigDigits_spec d hd
+  refine ⟨z, ?_, ?_⟩
+  · have := Nat.ofDigitChars_ten_toDigits (n := d)
+    rw [hz, Nat.ofDigitChars_append, Nat.ofDigitChars_replicate_zero] at this
+    rw [Nat.mul_comm]; exact this
+  · have := toDigits_length P d hP h1 h2
+    rw [hz] at this
+    simpa using this
+
+/-! #### the exponent part -/
+
+theorem readExp_expDigits (e : Int) :
+    readExp ((if e < 0 then "-" else "+").toList ++ (expDigits e.natAbs).toList) = some e := by
+  have hN : readNat (expDigits e.natAbs).toList = some e.natAbs := by
+    unfold expDigits
+    split
+    · have h0 : ("0" ++ toString e.natAbs).toList = '0' :: (toString e.natAbs).toList := by
+        simp [String.toList_append]
+      have hd : Digits ('0' :: (toString e.natAbs).toList) := by
+        intro c hc
+        rcases List.mem_cons.1 hc with rfl | hc
+        · rfl
+        · exact natText_digits _ c hc
+      rw [h0, readNat_digits hd (by simp), Nat.ofDigitChars_cons, natText_toList]
+      simp
+    · exact readNat_toString _
+  by_cases h : e < 0
+  · have e1 : (if e < 0 then "-" else "+").toList = ['-'] := by rw [if_pos h]; rfl
+    rw [e1, List.singleton_append]
+    simp only [readExp, hN, Option.map_some, if_true]
+    rw [if_neg (by decide)]
+    congr 1
+    show -((e.natAbs : Nat) : Int) = e
+    omega
+  · have e1 : (if e < 0 then "-" else "+").toList = ['+'] := by rw [if_neg h]; rfl
+    rw [e1, List.singleton_append]
+    simp only [readExp, hN, Option.map_some, if_true]
+    congr 1
+    show ((e.natAbs : Nat) : Int) = e
+    omega
+
+/-! #### the value of the laid-out digits -/
+
+theorem sgnText_toList (neg : Bool) : (if neg then "-" else "").toList = if neg then ['-'] else [] := by
+  cases neg <;> rfl
+
+theorem qpow (N m : Nat) (t u : Int) (h : (m : Int) + t = u) :
+    ((N * 10 ^ m : Nat) : ℚ) * (10 : ℚ) ^ t = (N : ℚ) * (10 : ℚ) ^ u := by
+  push_cast
+  rw [mul_assoc, ← zpow_natCast, ← zpow_add₀ (by norm_num), h]
+
+theorem ofDigitChars_snoc_zero (l : List Char) :
+    Nat.ofDigitChars 10 (l ++ ['0']) 0 = Nat.ofDigitChars 10 l 0 * 10 ^ 1 := by
+  rw [Nat.ofDigitChars_append, Nat.ofDigitChars_cons, Nat.ofDigitChars_nil]
+  simp [Nat.mul_comm]
+
+theorem ofDigitChars_zeros_append (k : Nat) (l : List Char) :
+    Nat.ofDigitChars 10 (List.replicate k '0' ++ l) 0 = Nat.ofDigitChars 10 l 0 := by
+  rw [Nat.ofDigitChars_append, Nat.ofDigitChars_replicate_zero, Nat.mul_zero]
+
+theorem ofDigitChars_append_zeros (k : Nat) (l : List Char) :
+    Nat.ofDigitChars 10 (l ++ List.replicate k '0') 0 = Nat.ofDigitChars 10 l 0 * 10 ^ k := by
+  rw [Nat.ofDigitChars_append, Nat.ofDigitChars_replicate_zero, Nat.mul_comm]
+
+theorem pow_congr' (a : ℚ) {t u : Int} (h : t = u) : a * (10 : ℚ) ^ t = a * (10 : ℚ) ^ u := by rw [h]
+
+theorem signMul (neg : Bool) (a b c d : ℚ) (h : a * b = c * d) :
+    (if neg then (-1 : ℚ) else 1) * a * b = (if neg then (-1 : ℚ) else 1) * c * d := by
+  rw [mul_assoc, mul_assoc, h]
+
+/-- The text laid out by `fmtDigs` (behind an optional sign, after `fixExponent`) denotes
+    `± N(ds) · 10^(decpt − |ds|)`, where `ds = sigDigits d` are the significant digits. -/
+theorem decimalValue_fmtDigs (P d : Nat) (e : Int) (neg : Bool) :
+    decimalValue (fixExponent ((if neg then "-" else "") ++ fmtDigs P d e)) =
+      some ((if neg then -1 else 1) * (Nat.ofDigitChars 10 (sigDigits d) 0 : ℚ) *
+        (10 : ℚ) ^ (e - ((sigDigits d).length : Int))) := by
+  obtain ⟨hds, hne⟩ := sigDigits_digits d
+  have hsgE : 'e' ∉ (if neg then ['-'] else []) := by cases neg <;> decide
+  have hsgP : '.' ∉ (if neg then ['-'] else []) := by cases neg <;> decide
+  unfold fmtDigs decimalValue
+  simp only []
+  generalize sigDigits d = ds at hds hne
+  by_cases hc1 : e > (P : Int) - 1 ∨ e < -3
+  · -- exponent notation
+    rw [if_pos hc1]
+    obtain ⟨a, rest, rfl⟩ := List.exists_cons_of_ne_nil hne
+    have ha : Digits [a] := fun c hc => hds c (by simp at hc; simp [hc])
+    have hrest : Digits rest := fun c hc => hds c (List.mem_cons_of_mem _ hc)
+    obtain ⟨hxd, _⟩ := expDigits_form (e - 1).natAbs
+    have hx : 'e' ∉ ((if e - 1 < 0 then "-" else "+") ++ expDigits (e - 1).natAbs).toList := by
+      rw [String.toList_append, List.mem_append, not_or]
+      exact ⟨by split <;> decide, hxd.not_mem 'e' rfl⟩
+    have hexp : expValue (some ((if e - 1 < 0 then "-" else "+").toList ++ (expDigits (e - 1).natAbs).toList)) =
+        some (e - 1) := readExp_expDigits (e - 1)
+    simp only [List.take_succ_cons, List.take_zero, List.drop_succ_cons, List.drop_zero]
+    cases rest with
+    | nil =>
+      simp only [List.isEmpty_nil, if_true]
+      have hm : 'e' ∉ ((if neg then "-" else "") ++ String.ofList [a]).toList := by
+        rw [String.toList_append, sgnText_toList, String.toList_ofList, List.mem_append, not_or]
+        exact ⟨hsgE, ha.not_mem 'e' rfl⟩
+      have hp : '.' ∉ ((if neg then "-" else "") ++ String.ofList [a]).toList := by
+        rw [String.toList_append, sgnText_toList, String.toList_ofList, List.mem_append, not_or]
+        exact ⟨hsgP, ha.not_mem '.' rfl⟩
+      have := fixExponent_exp _ _ hm hx
+      rw [if_neg hp] at this
+      simp only [String.append_assoc] at this ⊢
+      rw [this]
+      have e1 : ((if neg then "-" else "") ++ (String.ofList [a] ++ (".0e" ++
+          ((if e - 1 < 0 then "-" else "+") ++ expDigits (e - 1).natAbs)))).toList =
+          (if neg then ['-'] else []) ++ [a] ++ '.' :: ['0'] ++
+            expSuffix (some ((if e - 1 < 0 then "-" else "+").toList ++ (expDigits (e - 1).natAbs).toList)) := by
+        simp only [String.toList_append, sgnText_toList, String.toList_ofList, expSuffix]
+        rw [show ".0e".toList = ['.', '0', 'e'] from rfl]
+        simp
+      rw [e1, decimalValueL_eval neg [a] ['0'] _ (e - 1) ha (by simp) (by intro c hc; simp at hc; rw [hc]; rfl)
+        (by simp) hexp, ofDigitChars_snoc_zero]
+      congr 1
+      apply signMul
+      apply qpow
+      simp
+    | cons b t =>
+      simp only [List.isEmpty_cons, Bool.false_eq_true, if_false]
+      have hm : 'e' ∉ ((if neg then "-" else "") ++ String.ofList ([a] ++ ['.'] ++ b :: t)).toList := by
+        rw [String.toList_append, sgnText_toList, String.toList_ofList]
+        simp only [List.mem_append, List.mem_cons, List.not_mem_nil, or_false, not_or]
+        exact ⟨hsgE, ⟨fun h => absurd (ha a (by simp)) (by rw [← h]; decide), by decide⟩,
+          fun h => absurd (hrest b (by simp)) (by rw [← h]; decide), hrest.not_mem 'e' rfl ∘ List.mem_cons_of_mem _⟩
+      have hp : '.' ∈ ((if neg then "-" else "") ++ String.ofList ([a] ++ ['.'] ++ b :: t)).toList := by
+        rw [String.toList_append, String.toList_ofList]; simp
+      have := fixExponent_exp _ _ hm hx
+      rw [if_pos hp] at this
+      simp only [String.append_assoc] at this ⊢
+      rw [this]
+      have e1 : ((if neg then "-" else "") ++ (String.ofList ([a] ++ ['.'] ++ b :: t) ++ ("e" ++
+          ((if e - 1 < 0 then "-" else "+") ++ expDigits (e - 1).natAbs)))).toList =
+          (if neg then ['-'] else []) ++ [a] ++ '.' :: (b :: t) ++
+            expSuffix (some ((if e - 1 < 0 then "-" else "+").toList ++ (expDigits (e - 1).natAbs).toList)) := by
+        simp only [String.toList_append, sgnText_toList, String.toList_ofList, expSuffix]
+        rw [show "e".toList = ['e'] from rfl]
+        simp
+      rw [e1, decimalValueL_eval neg [a] (b :: t) _ (e - 1) ha (by simp) hrest (by simp) hexp]
+      congr 1
+      apply pow_congr'
+      simp only [List.length_cons]
+      push_cast
+      omega
+  · have hnoE : ∀ s : String, Digits (s.toList.filter (· != '.')) →
+        'e' ∉ ((if neg then "-" else "") ++ s).toList := by
+      intro s hs
+      rw [String.toList_append, sgnText_toList, List.mem_append, not_or]
+      refine ⟨hsgE, fun hm => ?_⟩
+      have := hs 'e' (List.mem_filter.2 ⟨hm, by decide⟩)
+      exact absurd this (by decide)
+    rw [if_neg hc1]
+    by_cases hle : e ≤ 0
+    · -- 0.000ddd
+      rw [if_pos hle]
+      have hfp : Digits (List.replicate (-e).toNat '0' ++ ds) := Digits.append (digits_replicate_zero _) hds
+      rw [fixExponent_no_e _ (hnoE _ (by
+        intro c hc
+        simp only [String.toList_append, String.toList_ofList, List.mem_filter, List.mem_append] at hc
+        rcases hc with ⟨hc | hc, hne'⟩
+        · have : c = '0' ∨ c = '.' := by
+            have h2 : "0.".toList = ['0', '.'] := rfl
+            rw [h2] at hc; simpa using hc
+          rcases this with rfl | rfl
+          · rfl
+          · simp at hne'
+        · exact hfp c (List.mem_append.2 hc)))]
+      have e1 : ((if neg then "-" else "") ++ ("0." ++ String.ofList (List.replicate (-e).toNat '0' ++ ds))).toList =
+          (if neg then ['-'] else []) ++ ['0'] ++ '.' :: (List.replicate (-e).toNat '0' ++ ds) ++ expSuffix none := by
+        simp only [String.toList_append, sgnText_toList, String.toList_ofList, expSuffix]
+        rw [show "0.".toList = ['0', '.'] from rfl]
+        simp
+      rw [e1, decimalValueL_eval neg ['0'] _ none 0 (by intro c hc; simp at hc; rw [hc]; rfl) (by simp) hfp
+        (by simp [hne]) rfl]
+      have : Nat.ofDigitChars 10 (['0'] ++ (List.replicate (-e).toNat '0' ++ ds)) 0 = Nat.ofDigitChars 10 ds 0 := by
+        rw [← List.replicate_one, ← List.append_assoc, ← List.replicate_add, ofDigitChars_zeros_append]
+      rw [this]
+      congr 1
+      apply pow_congr'
+      simp only [List.length_append, List.length_replicate]
+      push_cast
+      omega
+    · rw [if_neg hle]
+      by_cases hlen : ds.length ≤ e.toNat
+      · -- ddd000.0
+        rw [if_pos hlen]
+        have hip : Digits (ds ++ List.replicate (e.toNat - ds.length) '0') :=
+          Digits.append hds (digits_replicate_zero _)
+        rw [fixExponent_no_e _ (hnoE _ (by
+          intro c hc
+          simp only [String.toList_append, String.toList_ofList, List.mem_filter, List.mem_append] at hc
+          rcases hc with ⟨hc | hc, hne'⟩
+          · exact hip c (List.mem_append.2 hc)
+          · have : c = '.' ∨ c = '0' := by
+              have h2 : ".0".toList = ['.', '0'] := rfl
+              rw [h2] at hc; simpa using hc
+            rcases this with rfl | rfl
+            · simp at hne'
+            · rfl))]
+        have e1 : ((if neg then "-" else "") ++ (String.ofList (ds ++ List.replicate (e.toNat - ds.length) '0') ++ ".0")).toList =
+            (if neg then ['-'] else []) ++ (ds ++ List.replicate (e.toNat - ds.length) '0') ++ '.' :: ['0'] ++
+              expSuffix none := by
+          simp only [String.toList_append, sgnText_toList, String.toList_ofList, expSuffix]
+          rw [show ".0".toList = ['.', '0'] from rfl]
+          simp
+        rw [e1, decimalValueL_eval neg _ ['0'] none 0 hip (by simp [hne]) (by intro c hc; simp at hc; rw [hc]; rfl)
+          (by simp) rfl, ofDigitChars_snoc_zero, ofDigitChars_append_zeros, Nat.mul_assoc, ← Nat.pow_add]
+        congr 1
+        apply signMul
+        apply qpow
+        simp; omega
+      · -- dd.ddd
+        rw [if_neg hlen]
+        have hdp : 0 < e.toNat := by omega
+        have hipne : ds.take e.toNat ≠ [] := by
+          intro h
+          have := congrArg List.length h
+          simp only [List.length_take, List.length_nil] at this
+          have : 0 < ds.length := List.length_pos_iff.2 hne
+          omega
+        have hfpne : ds.drop e.toNat ≠ [] := by
+          intro h
+          have := congrArg List.length h
+          simp only [List.length_drop, List.length_nil] at this
+          omega
+        rw [fixExponent_no_e _ (hnoE _ (by
+          intro c hc
+          simp only [String.toList_ofList, List.mem_filter, List.mem_append, List.mem_cons, List.not_mem_nil,
+            or_false] at hc
+          rcases hc with ⟨(hc | rfl) | hc, hne'⟩
+          · exact hds c (List.mem_of_mem_take hc)
+          · simp at hne'
+          · exact hds c (List.mem_of_mem_drop hc)))]
+        have e1 : ((if neg then "-" else "") ++ String.ofList (ds.take e.toNat ++ ['.'] ++ ds.drop e.toNat)).toList =
+            (if neg then ['-'] else []) ++ ds.take e.toNat ++ '.' :: ds.drop e.toNat ++ expSuffix none := by
+          simp only [String.toList_append, sgnText_toList, String.toList_ofList, expSuffix]
+          simp
+        rw [e1, decimalValueL_eval neg _ _ none 0 (hds.take _) hipne (hds.drop _) hfpne rfl,
+          List.take_append_drop]
+        congr 1
+        apply pow_congr'
+        simp only [List.length_drop]
+        omega
+
+/-! #### Theorem 4 -/
+
+/-- the exact value of a finite double, as a rational: `± num/den` with `(num, den) = bitsFrac bits` -/
+def bitsValue (bits : UInt64) : ℚ :=
+  (if (bits >>> 63) != 0 then -1 else 1) * ((bitsFrac bits).1 : ℚ) / (bitsFrac bits).2
+
+/-- **Theorem 4 (digits form)** For a finite non-zero double the written parameter text
+    `fixExponent (format(x, '.P'))` parses (as `[-]d+.d+(e[+-]d+)?`) to `± d·10^(e−P)` where `d` is a `P`-digit
+    integer, the sign is the sign bit, and `d·10^(e−P)` is within half a unit in the `P`-th significant digit of
+    the exact absolute value `num/den` of the double. -/
+theorem param_value_digits (P : Nat) (hP : 1 ≤ P) (bits : UInt64) (hf : FiniteBits bits) (hn : NonzeroBits bits) :
+    ∃ (d : Nat) (e : Int),
+      decimalValue (fixExponent (fmtBits P bits)) =
+        some ((if (bits >>> 63) != 0 then (-1 : ℚ) else 1) * (d : ℚ) * (10 : ℚ) ^ (e - P)) ∧
+      10 ^ (P - 1) ≤ d ∧ d < 10 ^ P ∧
+      |((bitsFrac bits).1 : ℚ) / (bitsFrac bits).2 - d * (10 : ℚ) ^ (e - P)| ≤ (10 : ℚ) ^ (e - P) / 2 := by
+  obtain ⟨d, e, htext, h1, h2, h3⟩ := fmtBits_correctly_rounded P hP bits hf hn
+  refine ⟨d, e, ?_, h1, h2, h3⟩
+  obtain ⟨z, hz, hlen⟩ := sigDigits_value P d hP h1 h2
+  rw [htext]
+  refine (decimalValue_fmtDigs P d e ((bits >>> 63) != 0)).trans (congrArg some ?_)
+  apply signMul
+  generalize Nat.ofDigitChars 10 (sigDigits d) 0 = N at hz ⊢
+  generalize (sigDigits d).length = L at hlen ⊢
+  subst hz
+  symm
+  apply qpow
+  omega
+
+/-- **Theorem 4** The parameter text of a finite non-zero double denotes the double to `P` significant digits:
+    it parses to a rational `v` of decimal exponent `e` (`10^(e−1) ≤ |v| < 10^e`) with
+    `|x − v| ≤ 10^(e−P)/2`, half a unit in the `P`-th significant digit (`x = bitsValue bits` exact). -/
+theorem param_value (P : Nat) (hP : 1 ≤ P) (bits : UInt64) (hf : FiniteBits bits) (hn : NonzeroBits bits) :
+    ∃ (v : ℚ) (e : Int), decimalValue (fixExponent (fmtBits P bits)) = some v ∧
+      (10 : ℚ) ^ (e - 1) ≤ |v| ∧ |v| < (10 : ℚ) ^ e ∧ |bitsValue bits - v| ≤ (10 : ℚ) ^ (e - P) / 2 := by
+  obtain ⟨d, e, hv, h1, h2, h3⟩ := param_value_digits P hP bits hf hn
+  refine ⟨_, e, hv, ?_, ?_, ?_⟩
+  · have hpos : (0 : ℚ) < (10 : ℚ) ^ (e - (P : Int)) := zpow_pos (by norm_num) _
+    have habs : |(if (bits >>> 63 != 0) = true then (-1 : ℚ) else 1) * (d : ℚ) * (10 : ℚ) ^ (e - (P : Int))| =
+        (d : ℚ) * (10 : ℚ) ^ (e - (P : Int)) := by
+      rw [abs_mul, abs_mul, abs_of_pos hpos, abs_of_nonneg (Nat.cast_nonneg d : (0 : ℚ) ≤ (d : ℚ))]
+      split <;> simp
+    rw [habs]
+    have e1 : (10 : ℚ) ^ (e - 1) = ((10 ^ (P - 1) : Nat) : ℚ) * (10 : ℚ) ^ (e - (P : Int)) := by
+      push_cast
+      rw [← zpow_natCast, ← zpow_add₀ (by norm_num)]
+      congr 1; omega
+    rw [e1]
+    exact mul_le_mul_of_nonneg_right (by exact_mod_cast h1) hpos.le
+  · have hpos : (0 : ℚ) < (10 : ℚ) ^ (e - (P : Int)) := zpow_pos (by norm_num) _
+    have habs : |(if (bits >>> 63 != 0) = true then (-1 : ℚ) else 1) * (d : ℚ) * (10 : ℚ) ^ (e - (P : Int))| =
+        (d : ℚ) * (10 : ℚ) ^ (e - (P : Int)) := by
+      rw [abs_mul, abs_mul, abs_of_pos hpos, abs_of_nonneg (Nat.cast_nonneg d : (0 : ℚ) ≤ (d : ℚ))]
+      split <;> simp
+    rw [habs]
+    have e1 : (10 : ℚ) ^ e = ((10 ^ P : Nat) : ℚ) * (10 : ℚ) ^ (e - (P : Int)) := by
+      push_cast
+      rw [← zpow_natCast, ← zpow_add₀ (by norm_num)]
+      congr 1; omega
+    rw [e1]
+    exact mul_lt_mul_of_pos_right (by exact_mod_cast h2) hpos
+  · unfold bitsValue
+    have : ∀ σ : ℚ, (σ = -1 ∨ σ = 1) → ∀ a b : ℚ, |σ * a / ((bitsFrac bits).2 : ℚ) - σ * b * (10 : ℚ) ^ (e - (P : Int))| =
+        |a / ((bitsFrac bits).2 : ℚ) - b * (10 : ℚ) ^ (e - (P : Int))| := by
+      rintro σ (rfl | rfl) a b
+      · rw [← abs_neg]; congr 1; ring
+      · congr 1; ring
+    rw [this _ (by split <;> simp)]
+    exact h3
+
+/-- a signed zero is written as `0.0` / `-0.0`, which denotes `0` -/
+theorem param_value_zero (P : Nat) (bits : UInt64) (hf : FiniteBits bits) (hz : ¬ NonzeroBits bits) :
+    decimalValue (fixExponent (fmtBits P bits)) = some 0 := by
+  have hex : (((bits >>> 52) &&& 0x7ff).toNat == 0x7ff) = false := by
+    rw [beq_eq_false_iff_ne]; exact hf
+  have hzero : (((bits >>> 52) &&& 0x7ff).toNat == 0 && (bits &&& 0xfffffffffffff).toNat == 0) = true := by
+    unfold NonzeroBits at hz
+    simp only [Classical.not_not] at hz
+    simp [hz.1, hz.2]
+  unfold fmtBits
+  simp only []
+  rw [hex, hzero]
+  simp only [Bool.false_eq_true, if_false, if_true]
+  have e1 : ((if (bits >>> 63 != 0) = true then "-" else "") ++ "0.0").toList =
+      (if (bits >>> 63 != 0) then ['-'] else []) ++ ['0'] ++ '.' :: ['0'] ++ expSuffix none := by
+    rw [String.toList_append, sgnText_toList, show "0.0".toList = ['0', '.', '0'] from rfl]
+    simp [expSuffix]
+  rw [fixExponent_no_e _ (by rw [e1]; cases (bits >>> 63 != 0) <;> decide)]
+  unfold decimalValue
+  rw [e1, decimalValueL_eval _ ['0'] ['0'] none 0 (by intro c hc; simp at hc; rw [hc]; rfl) (by simp)
+    (by intro c hc; simp at hc; rw [hc]; rfl) (by simp) rfl]
+  simp [Nat.ofDigitChars]
+
+/-- Theorem 4 for a float argument: `fmtFloat P x` is the parameter text of `.float x` (`showArg_float`). -/
+theorem param_value_float (P : Nat) (hP : 1 ≤ P) (x : Float) (hf : FiniteBits x.toBits) (hn : NonzeroBits x.toBits) :
+    ∃ (v : ℚ) (e : Int), decimalValue (showArg (fmtFloat P) (.float x)) = some v ∧
+      (10 : ℚ) ^ (e - 1) ≤ |v| ∧ |v| < (10 : ℚ) ^ e ∧ |bitsValue x.toBits - v| ≤ (10 : ℚ) ^ (e - P) / 2 :=
+  param_value P hP x.toBits hf hn
+
+-- non-vacuity: the double 1e-05 (bits 0x3ee4f8b588e368f1) is written `1.0e-05`, which denotes exactly 10^-5
+example : ∃ (v : ℚ) (e : Int), decimalValue (fixExponent (fmtBits 8 0x3ee4f8b588e368f1)) = some v ∧
+    (10 : ℚ) ^ (e - 1) ≤ |v| ∧ |v| < (10 : ℚ) ^ e ∧
+    |bitsValue 0x3ee4f8b588e368f1 - v| ≤ (10 : ℚ) ^ (e - (8 : Nat)) / 2 :=
+  param_value 8 (by decide) _ (by decide) (by decide)
+example : decimalValue "1.0e-05" = some ((10 : ℚ) ^ (-5 : Int)) := by
+  have hd : ∀ c : Char, c.isDigit = true → Digits [c] := fun c h x hx => by simp at hx; rw [hx]; exact h
+  have := decimalValueL_eval false ['1'] ['0'] (some "-05".toList) (-5) (hd _ rfl) (by decide) (hd _ rfl)
+    (by decide) (by decide)
+  simp only [Bool.false_eq_true, if_false, List.nil_append, expSuffix] at this
+  rw [decimalValue, show "1.0e-05".toList = ['1'] ++ '.' :: ['0'] ++ 'e' :: "-05".toList from rfl, this]
+  norm_num [Nat.ofDigitChars]
+  rw [show '1'.toNat - '0'.toNat = 1 by decide]
+  norm_num
+
 end OSq
 
 #print axioms OSq.readLine3_gate
@@ -1492,3 +1988,8 @@ end OSq
 #print axioms OSq.isParamTok_fmtFloat
 #print axioms OSq.readProgram3_writeCircuit_float
 #print axioms OSq.readProgram1_exportV1_float
+#print axioms OSq.decimalValue_fmtDigs
+#print axioms OSq.param_value_digits
+#print axioms OSq.param_value
+#print axioms OSq.param_value_zero
+#print axioms OSq.param_value_float
